@@ -213,3 +213,17 @@ package reorgdetector
 //@   ensures[success-means-durably-tracked] (result == nil && rd.finalizedBlockType != aggkittypes.LatestBlock) ==> durHas[num] && durHash[num] == hash
 //@   ensures[unknown-subscriber-refused] (rd.finalizedBlockType != aggkittypes.LatestBlock && !old(has(rd.trackedBlocks, id))) ==> result != nil
 //@   ensures[memory-stays-within-the-store] has(rd.trackedBlocks, id) ==> forall(n, int, has(rd.trackedBlocks[id].headers, n) ==> durHas[n] && durHash[n] == rd.trackedBlocks[id].headers[n].Hash)
+
+// ---- the detection loop (C06): it is left only through the Done case of its own context - no error of a pass ends
+// the periodic detection (the safety shadow of "a replaced block is eventually noticed"; fairness of the ticker and
+// termination are not decided). The pass itself is under contract above (its closure); the wrapper that fans out over
+// the subscribers is executed as an unknown callee here.
+//@ func (rd *ReorgDetector) detectReorgInTrackedList (rd, ctx)
+//@   trusted
+//@   modifies heap, notifyCalls, lastNotified, lastDropFrom, lastDropTo, dropCalls, passHdrs, passLen, rdFaults
+//@ func (rd *ReorgDetector) Start$1
+//@   props C06
+//@   requires rd != nil && !ctxEnded
+//@   modifies heap, ctxEnded
+//@   ensures[stops-only-when-its-context-ended] ctxEnded
+//@   loop 0 invariant ticker != nil && !ctxEnded
